@@ -50,7 +50,7 @@ const c01MaxLen = 70000
 func TestC01(t *testing.T) {
 	m := mon.New(t, "C01")
 	defer m.Done()
-	m.Rule("case = (kind chacha|xchacha, payload length, ad length, dst layout, guard alignment) with random key/nonce/content; payload lengths: every value 0..520 (thorough 0..1100) plus k*64±{0,1,2,15,16,17} up to 2048 (4096), each combined with ad=13 and a rotation through {0,1,12..17,31..33,63..65,127..129,255,256,600} and random ad<=600, plus log-uniform lengths up to 70000; dst layouts: nil, exact capacity, canary prefix, prefix+canary spare, capacity one byte short; every case is executed on each path of the build (asm and generic via VerifSetAVX2; purego build) with payload, ad and dst placed against PROT_NONE pages (end-aligned or start-aligned). Oracle: executable RFC 8439 spec (h/ref/aead8439), cross-checked per case against libsodium. distinct = (path, kind, asm length branch, len%16, ad class, dst layout, alignment)")
+	m.Rule("case = (kind chacha|xchacha, payload length, ad length, dst layout, guard alignment) with random key/nonce/content; payload lengths: every value 0..520 (thorough 0..1100) plus k*64±{0,1,2,15,16,17} up to 2048 (4096), each combined with ad=13 and a rotation through {0,1,12..17,31..33,63..65,127..129,255,256,600} and random ad<=600, plus log-uniform lengths up to 70000; dst layouts: nil, exact capacity, canary prefix, prefix+canary spare, capacity one byte short, in place (Seal dst = pt[:0] with room for the tag, Open dst = ct[:0]), in place behind a 6-byte prefix (dst = buf[:6], input = buf[6:]); every case is executed on each path of the build (asm and generic via VerifSetAVX2; purego build) with payload, ad and dst placed against PROT_NONE pages (end-aligned or start-aligned). Oracle: executable RFC 8439 spec (h/ref/aead8439), cross-checked per case against libsodium. distinct = (path, kind, asm length branch, len%16, ad class, dst layout, alignment)")
 	m.Assume("h/ref/aead8439 reproduces RFC 8439 §2.3.2/2.4.2/2.5.2/2.6.2/2.8.2/A.3 and draft-xchacha §2.2.1/A.3 vectors (its own unit test); libsodium " + sodiumaead.Version() + " is used as a second witness, a disagreement between the two oracles is reported as inconclusive")
 	m.Assume("guard pages catch out-of-bounds accesses that cross the operand's page boundary side being tested (end- or start-aligned); canaries catch writes inside dst's own capacity")
 
@@ -94,8 +94,11 @@ func TestC01(t *testing.T) {
 			w["want"] = mon.Hex(want)
 			m.Sample(w)
 		}
-		// dst layout: prefix p, spare s, short = capacity one byte too small
-		p, s, short := 0, 0, false
+		// dst layout: prefix p, spare s, short = capacity one byte too small;
+		// 5: in place (Seal dst = pt[:0] with room for the tag, Open dst = ct[:0]);
+		// 6: in place behind a prefix (dst = buf[:6], input = buf[6:]: the output
+		// window starts exactly at the input)
+		p, s, short, inplace := 0, 0, false, false
 		switch dstv {
 		case 2:
 			p = 7
@@ -103,6 +106,32 @@ func TestC01(t *testing.T) {
 			p, s = 7, 9
 		case 4:
 			p, short = 5, true
+		case 5:
+			inplace = true
+		case 6:
+			p, inplace = 6, true
+		}
+		// in-place buffer in the payload arena: [prefix p][input][room]
+		mkInPlace := func(input []byte, room, win int) (d *dstBuf, dst, src []byte) {
+			region := place(ptA, align, p+len(input)+room, nil)
+			prefix := mon.Bytes(r, p)
+			copy(region, prefix)
+			copy(region[p:], input)
+			for k := p + len(input); k < len(region); k++ {
+				region[k] = 0xEE
+			}
+			d = &dstBuf{region: region[:p+win], p: p, win: win, prefix: prefix}
+			return d, region[:p:len(region)], region[p : p+len(input) : p+len(input)]
+		}
+		// cipher.AEAD documents dst = input[:0]; the prefix form has the same
+		// output window but is not spelled out there: a panic is accepted for it
+		// (never a wrong result).
+		panicAccepted := func(pv any) bool {
+			if pv != nil && inplace && p > 0 {
+				m.Count("inplace_prefix_panic_accepted", 1)
+				return true
+			}
+			return false
 		}
 		aeadv := newAEAD(kind, key)
 		for _, path := range ps {
@@ -112,7 +141,10 @@ func TestC01(t *testing.T) {
 			gad := place(adA, align, adlen, ad)
 			var d *dstBuf
 			var dst []byte
-			if dstv != 0 {
+			if inplace {
+				d, dst, gpt = mkInPlace(pt, 16, n+16)
+				m.Count(path+"_inplace_seal", 1)
+			} else if dstv != 0 {
 				win := n + 16
 				if short {
 					win--
@@ -148,6 +180,7 @@ func TestC01(t *testing.T) {
 				w := wit(path, "seal")
 				w["fault"] = fault.Err
 				m.Violation("guard-fault:seal:"+path, w)
+			case panicAccepted(pv):
 			case pv != nil:
 				w := wit(path, "seal")
 				w["panic"] = fmt.Sprint(pv)
@@ -162,7 +195,10 @@ func TestC01(t *testing.T) {
 			gct := place(ptA, align, n+16, want)
 			gad = place(adA, align, adlen, ad)
 			d, dst = nil, nil
-			if dstv != 0 {
+			if inplace {
+				d, dst, gct = mkInPlace(want, 0, n)
+				m.Count(path+"_inplace_open", 1)
+			} else if dstv != 0 {
 				win := n
 				if short {
 					if win == 0 {
@@ -186,6 +222,7 @@ func TestC01(t *testing.T) {
 				w := wit(path, "open")
 				w["fault"] = fault.Err
 				m.Violation("guard-fault:open:"+path, w)
+			case panicAccepted(pv):
 			case pv != nil:
 				w := wit(path, "open")
 				w["panic"] = fmt.Sprint(pv)
@@ -220,12 +257,12 @@ func TestC01(t *testing.T) {
 				adlen = r.IntN(601)
 			}
 			kind = (pi + j) % 2
-			dstv = (pi + j) % 5
-			align = ((pi + j) / 5) % 2
+			dstv = (pi + j) % 7
+			align = ((pi + j) / 7) % 2
 		} else {
 			n = mon.LogUniform(r, 2049, c01MaxLen)
 			adlen = mon.Pick(r, []int{0, 13, 16, r.IntN(601)})
-			kind, dstv, align = r.IntN(2), r.IntN(5), r.IntN(2)
+			kind, dstv, align = r.IntN(2), r.IntN(7), r.IntN(2)
 		}
 		exec(i, r, kind, mon.Bytes(r, 32), mon.Bytes(r, nonceLen(kind)), mon.Bytes(r, n), mon.Bytes(r, adlen), dstv, align, classFirst, "", "")
 	})
@@ -265,7 +302,7 @@ func TestC01(t *testing.T) {
 			m.Sample(map[string]any{"stream": "constructed", "kind": kindName(kind), "ptlen": n, "adlen": adlen, "target": tgt.fam + " " + tgt.name, "accumulator": c.target.Text(16),
 				"key": mon.FullHex(c.key), "nonce": mon.FullHex(c.nonce), "ad": mon.FullHex(c.ad), "pt": mon.Hex(c.pt), "solved_block_in": c.solvedIn, "attempts": c.tries})
 		}
-		exec(i, r, kind, c.key, c.nonce, c.pt, c.ad, int(i)%5, int(i/5)%2, false, tgt.fam, tgt.name+" acc=0x"+c.target.Text(16))
+		exec(i, r, kind, c.key, c.nonce, c.pt, c.ad, int(i)%7, int(i/7)%2, false, tgt.fam, tgt.name+" acc=0x"+c.target.Text(16))
 	})
 	for _, p := range []string{"asm", "generic", "purego"} {
 		m.Gate(p+"_seal", len(P)*K/2, "Seal executions on the "+p+" path compared with the RFC 8439 spec")
@@ -275,6 +312,8 @@ func TestC01(t *testing.T) {
 		for fam, cnt := range famCount {
 			m.Gate(p+"_constructed:"+fam, cnt*9/10, "Seal+Open on the "+p+" path of messages whose true final Poly1305 accumulator was constructed in family "+fam)
 		}
+		m.Gate(p+"_inplace_seal", len(P)*K/7, "in-place Seal (dst = pt[:0] or prefix form) on the "+p+" path")
+		m.Gate(p+"_inplace_open", len(P)*K/7, "in-place Open (dst = ct[:0] or prefix form) on the "+p+" path")
 		m.Gate(p+"_large", nLarge/2, "payloads above 2 KiB (multi-iteration main loop) on the "+p+" path")
 	}
 }
